@@ -3,7 +3,6 @@ package exec
 import (
 	"fmt"
 	"go/types"
-	"strconv"
 	"strings"
 
 	"golang.org/x/tools/go/ssa"
@@ -44,6 +43,33 @@ func zeroStub(m *Machine, caller *frame, fn *ssa.Function, args []Value) Value {
 	return zeroResults(fn.Signature)
 }
 
+// dummyStub is used for no-op packages: pointer results are fresh zero objects
+// (so that field selection on e.g. a logger does not fault), everything else zero.
+func dummyStub(m *Machine, caller *frame, fn *ssa.Function, args []Value) Value {
+	r := fn.Signature.Results()
+	mk := func(t types.Type) Value {
+		if p, ok := t.Underlying().(*types.Pointer); ok {
+			if _, isStruct := p.Elem().Underlying().(*types.Struct); isStruct {
+				c := new(Value)
+				*c = zero(p.Elem())
+				return c
+			}
+		}
+		return zero(t)
+	}
+	switch r.Len() {
+	case 0:
+		return nil
+	case 1:
+		return mk(r.At(0).Type())
+	}
+	t := make(Tuple, r.Len())
+	for i := range t {
+		t[i] = mk(r.At(i).Type())
+	}
+	return t
+}
+
 func (e *Engine) lookupStub(m *Machine, fn *ssa.Function, name string) stubFn {
 	if fn.Pkg == e.pkg && strings.HasPrefix(fn.Name(), "vrf_") {
 		if h := e.intrinsic(fn.Name()); h != nil {
@@ -68,7 +94,7 @@ func (e *Engine) lookupStub(m *Machine, fn *ssa.Function, name string) stubFn {
 	pp := fnPkgPath(fn)
 	for _, p := range noopPkgs {
 		if pp == p || strings.HasPrefix(pp, p+"/") {
-			return zeroStub
+			return dummyStub
 		}
 	}
 	for _, pat := range m.cfg.Opaque {
@@ -258,13 +284,6 @@ func coreNatives() map[string]stubFn {
 		"runtime.SetFinalizer": zeroStub,
 		"os.Getenv": func(m *Machine, c *frame, fn *ssa.Function, a []Value) Value { return sym.Str("") },
 
-		"strconv.Itoa": func(m *Machine, c *frame, fn *ssa.Function, a []Value) Value {
-			t := m.term(a[0])
-			if t.Const {
-				return sym.Str(strconv.FormatInt(t.SInt(), 10))
-			}
-			return sym.UF("uf_itoa", sym.StrSort, t)
-		},
 	}
 }
 
@@ -322,32 +341,9 @@ func (m *Machine) sprintf(format *sym.Term, args []Value) Value {
 		if ok {
 			return sym.Str(fmt.Sprintf(format.S, gv...))
 		}
-		// "%s%s"-like pure concatenations of strings keep their meaning
-		if strings.Count(format.S, "%") == strings.Count(format.S, "%s") && strings.Count(format.S, "%s") == len(args) {
-			parts := strings.Split(format.S, "%s")
-			r := sym.Str(parts[0])
-			good := true
-			for i, a := range args {
-				itf, isI := a.(Iface)
-				if !isI || itf.T == nil {
-					good = false
-					break
-				}
-				b, isB := itf.T.Underlying().(*types.Basic)
-				t, isT := itf.V.(*sym.Term)
-				if !isB || !isT || b.Info()&types.IsString == 0 {
-					good = false
-					break
-				}
-				if ms := m.eng.prog.MethodSets.MethodSet(itf.T); ms.Lookup(nil, "String") != nil {
-					good = false
-					break
-				}
-				r = sym.Concat(sym.Concat(r, t), sym.Str(parts[i+1]))
-			}
-			if good {
-				return r
-			}
+		// formats made only of %s / %d / %v verbs keep their meaning as concatenations
+		if r, ok := m.sprintfConcat(format.S, args); ok {
+			return r
 		}
 	}
 	return sym.Var(m.freshName("sprintf"), sym.StrSort)
@@ -562,4 +558,71 @@ func atomicCAS(m *Machine, c *frame, fn *ssa.Function, a []Value) Value {
 		return sym.True()
 	}
 	return sym.False()
+}
+
+func (m *Machine) sprintfConcat(f string, args []Value) (*sym.Term, bool) {
+	r := sym.Str("")
+	ai := 0
+	lit := ""
+	for i := 0; i < len(f); i++ {
+		if f[i] != '%' {
+			lit += string(f[i])
+			continue
+		}
+		if i+1 >= len(f) {
+			return nil, false
+		}
+		v := f[i+1]
+		i++
+		if v == '%' {
+			lit += "%"
+			continue
+		}
+		if ai >= len(args) {
+			return nil, false
+		}
+		var piece *sym.Term
+		switch v {
+		case 'd':
+			t, ok := m.fmtIntArg(args[ai])
+			if !ok {
+				return nil, false
+			}
+			piece = t
+		case 's', 'v':
+			itf, isI := args[ai].(Iface)
+			if !isI || itf.T == nil {
+				return nil, false
+			}
+			b, isB := itf.T.Underlying().(*types.Basic)
+			t, isT := itf.V.(*sym.Term)
+			if !isB || !isT {
+				return nil, false
+			}
+			if ms := m.eng.prog.MethodSets.MethodSet(itf.T); ms.Lookup(nil, "String") != nil || ms.Lookup(nil, "Error") != nil {
+				return nil, false
+			}
+			switch {
+			case b.Info()&types.IsString != 0:
+				piece = t
+			case b.Info()&types.IsInteger != 0 && v == 'v':
+				tt, ok := m.fmtIntArg(args[ai])
+				if !ok {
+					return nil, false
+				}
+				piece = tt
+			default:
+				return nil, false
+			}
+		default:
+			return nil, false
+		}
+		ai++
+		r = sym.Concat(sym.Concat(r, sym.Str(lit)), piece)
+		lit = ""
+	}
+	if ai != len(args) {
+		return nil, false
+	}
+	return sym.Concat(r, sym.Str(lit)), true
 }
